@@ -22,8 +22,8 @@ CHECKS = {
                 ref='3/C03'),
     'C04': dict(cat='other', engine='E2',
                 technique='bounded symbolic execution of the real vector classes over a symbolic real scalar; z3 (NRA) decides element-wise definitions for every aliasing pattern',
-                text='Every vector kind (dense, blocked, tuple, power), size and aliasing pattern in the bound is executed symbolically; z3 decides over all real values that each result component equals the element-wise definition on the flattened data; min/max via inequalities + attainment for every ordering. Sparse vector slice: SparseVector built by every insertion sequence (repeated indices included): element access and min/max against the flattened definition.',
-                note='Trusted: SymReal instantiation, DAG printer, z3 5.1.0. Real arithmetic (no rounding, no overflow); min/max only on non-empty vectors; sqrt as algebraic unknown. One defect found and fixed (SparseVector min/max reductions). Outside: SparseVectorBlocked (same reduction code, not examined), lengths beyond the bound.',
+                text='Every vector kind (dense, blocked, tuple, power), size and aliasing pattern in the bound is executed symbolically; z3 decides over all real values that each result component equals the element-wise definition on the flattened data; min/max via inequalities + attainment for every ordering. Sparse vector slice: SparseVector and SparseVectorBlocked<2> built by every insertion sequence (repeated indices included): element access and min/max against the flattened definition.',
+                note='Trusted: SymReal instantiation, DAG printer, z3 5.1.0. Real arithmetic (no rounding, no overflow); min/max only on non-empty vectors; sqrt as algebraic unknown. Three defects found and fixed (SparseVector / SparseVectorBlocked min/max reductions, SparseVectorBlocked insertion with reallocation). Outside: lengths beyond the bound.',
                 ref='3/C04'),
     'C05': dict(cat='model_checking', engine='E3',
                 technique='own IR symbolic executor on the real Container::_serialize/_deserialize and CheckpointControl collect/load/restore code with every stored value and index an arbitrary symbolic 64-bit pattern (sizes concrete, incl. zero-sized arrays); z3 decides bit-identity of everything read back; executor checks the offset arithmetic for bounds',
